@@ -20,6 +20,7 @@ import logging
 import random
 import re
 import sys
+import textwrap
 import threading
 import uuid
 from ast import literal_eval
@@ -674,7 +675,13 @@ class LLMGenerationActions:
                 lines = result.split("\n")
                 while True:
                     try:
-                        parse_colang_file("dynamic.co", content="\n".join(lines))
+                        # We parse it the same way it will be parsed when the flow is started,
+                        # i.e., as the body of a flow definition.
+                        parse_colang_file(
+                            "dynamic.co",
+                            content="define flow dynamic:\n"
+                            + textwrap.indent("\n".join(lines), "  "),
+                        )
                         break
                     except Exception as e:
                         # If we could not parse the flow on the last line, we return a general response
